@@ -33,7 +33,7 @@ RULE = ("one evaluation = one generated history (2-3 client sessions, up to 30 o
 COMPONENTS = {"real": ["dtw.py, dtw_ndim.py, ed.py, dtw_barycenter.py, util.py (SeriesContainer), util_numpy.py", "dtw_cc / ed_cc (C engine)",
                        "subsequence/*.py, clustering/hierarchical.py, clustering/kmeans.py (as long-lived objects on the shared pool)"],
               "stub": ["client sessions and their interleaving (seeded scheduler)", "twins: the same call in a fresh context (same representations) and on canonical contiguous copies"]}
-ASSUMPTIONS = ["bounds: 3..6 series of length 2..8, 2..3 bivariate series, histories <= 30 ops",
+ASSUMPTIONS = ["bounds: mostly 3..6 series of length 2..8 (one history in 12: 7..12 series of length 9..24), 2..3 bivariate series, histories <= 30 ops",
                "container independence is compared with rel. tol 1e-9 (Python 3.12 sums Python floats with compensation but NumPy scalars without: list and ndarray inputs differ in the last bit); history independence is compared bit for bit", "a call that RAISES for a container kind it does not accept (plain lists handed to the C entry points, ...) is permitted if inputs stay untouched and "
                "the fresh same-representation twin raises the same way; a call that RETURNS must return the canonical value",
                "psi is kept <= window and <= the shortest series (outside that the C kernels write beyond their buffer, which is C08's subject)",
@@ -48,12 +48,13 @@ NPAIR_FNS = ["ndistance", "ndistance_fast", "nwarping_paths", "nwarping_path", "
 
 def gen_history(st):
     rng = st("workload")
-    m = 3 + rng.below(4)
+    big = rng.below(12) == 0          # swarm sizing: one history in 12 has more and longer series
+    m = 7 + rng.below(6) if big else 3 + rng.below(4)
     equal = rng.below(2) == 0
-    L0 = 2 + rng.below(7)
+    L0 = 9 + rng.below(16) if big else 2 + rng.below(7)
     series = []
     for i in range(m):
-        L = L0 if equal else 2 + rng.below(7)
+        L = L0 if equal else (9 + rng.below(16) if big else 2 + rng.below(7))
         series.append([float(rng.below(5)) if rng.below(3) else round(rng.uniform(-2, 4), 2) for _ in range(L)])
     nser = [[[float(rng.below(4)), float(rng.below(3))] for _ in range(2 + rng.below(5))] for _ in range(2 + rng.below(2))]
     minlen = min(len(s) for s in series)
@@ -476,6 +477,8 @@ def run_op(pool, op, alone):
     except sessions.OpTimeout:
         raise
     except Exception as exc:  # noqa
+        if type(exc).__name__ == "ThreadSimError":
+            raise            # a failure of the simulator itself is never a result of the code under test
         return ["exc", type(exc).__name__]
 
 
@@ -487,6 +490,10 @@ def run_threads(setup, op, bump, obs, opi):
     progs = op["progs"]
     nconts = len(setup["conts"])
     progs = [[o for o in pr if o.get("cont", 0) < nconts] for pr in progs]
+    if len(setup["series"]) > 6:
+        # large pools: whole-collection routines in the pure-Python engine cost millions of traced line events per caller;
+        # the concurrent callers then run the pairwise routines only
+        progs = [pr for pr in progs if all(o["op"] in ("pair", "npair", "new_sa", "use") for o in pr)]
     progs = [pr for pr in progs if pr]
     if len(progs) < 2:
         return None
@@ -498,7 +505,7 @@ def run_threads(setup, op, bump, obs, opi):
 
     alone = [runner(Pool(setup), pr)() for pr in progs]
     pools = [Pool(setup) for _ in progs]
-    sim = threadsim.ThreadSim(core.Rng(op["tseed"]), os.path.dirname(os.path.abspath(dtaidistance.__file__)), switch_one_in=op.get("one_in", 12))
+    sim = threadsim.ThreadSim(core.Rng(op["tseed"]), os.path.dirname(os.path.abspath(dtaidistance.__file__)), switch_one_in=op.get("one_in", 12), max_events=5000000)
     res = sim.run([runner(pl, pr) for pl, pr in zip(pools, progs)])
     bump("op:threads")
     bump("threads:callers", len(progs))
